@@ -77,7 +77,10 @@ def judge_loc(c, op, cfg, raw):
 # ---- float round trip (F5) and triangles (F11): support sweeps with known-finding signatures
 def gen_roundtrip(ctx):
     rng = ctx.rng
-    out = []
+    # first the witness of the model-level theorem C10_float_round_trip_refuted (Props/C10.v)
+    out = [{"rows": [[F(-4278419646001971, 2251799813685248), F(-5854679515581645, 4503599627370496), F(2)],
+                     [F(-3602879701896397, 4503599627370496), F(8106479329266893, 4503599627370496), F(3602879701896397, 2251799813685248)]],
+            "s": F(1, 8), "n": 2}]
     for _ in range(60 if ctx.quick() else 1500):
         n = rng.randint(2, 5)
         rows = [[F(rng.randint(-20, 20), 10) for _ in range(n + 1)] for _ in range(2)]
